@@ -2,18 +2,51 @@
    Statements about the Context model (Asm/CtxModel.v: tokenizer + parser + Context + directives + deferred
    statements + finalize, tied to the Rust code by the correspondence stream of ./check C06 in both build profiles).
 
-   NOT proved (kept as a comment, see the final report / MANIFEST):
-     C06_never_panics : forall fs path text, include_depth_ok fs ->
-                        forall p, pipeline fs path text <> PPanic p.
-   It needs the composition of tokenizer/parser totality (C10), simplifier panic-freedom (C08), the map and segment
-   invariants (C15/C13) with a Context invariant (a file is open <-> local table and task list exist; tables hold no
-   register names).  Absence of panics is therefore decided by the correspondence stream only (implementation never
-   panics on any generated input; model = implementation on every compared case), not by proof. *)
+   C06_never_panics (proofs: Asm/CtxNoPanicInstr.v, Asm/CtxNoPanic.v): the pipeline never reaches any of the panic sites
+   of the model (CtxSeg.site: every unwrap / unreachable! / assert! / panic! / index of asm/mod.rs, the directives, the
+   deferred-statement code of arm6m/mod.rs, the simplifier, the tokenizer and the parser), for every project, root path,
+   source text, include-depth fuel and both build profiles.  It composes
+     * C10 (tokenizer and parser total), C08 (simplify / evaluate never reach unreachable!/assert!) with C05's
+       evaluate_mut agreement, the arity argument for `self.args[arg_pos]` (assemble_args_no_panic),
+     * C13 (pipeline_inv: no segment / map site, including the assert of write_at after the repair 8bb2c3e),
+     * the scope invariant proved here over all reachable states: while a file is open the local table and the local
+       task list exist and path_stack is not empty (get/insert/defer_constant, add_task, active().unwrap(),
+       curr_file_path().unwrap(), local_tasks.unwrap(), the PathFrame asserts); no table key is a register name
+       (the unreachable!(e) arms of .global / .import / .export and of the end-of-file task); only re-scheduled
+       statements ever reach the global task list (finalize never runs a task that needs a local scope).
+   Found by this proof and repaired (8bb2c3e): with an active buffer of exactly 2^32 bytes curr_addr() was truncated to
+   the base address and a task resolving inside the buffer tripped `assert!(addr <= self.curr_addr())`
+   (`.addr 0; .du32 0; .du32 X; .align 0xFFFFFFFF; .du8 0; .const X, 1;`).
+   The outcome POutOfFuel of the model is not a behaviour of the implementation (the model runs the include recursion,
+   the task rounds, the map's binary search and the tokenizer / parser on explicit fuel).  C06_fuel_not_rounds
+   (Asm/CtxFuel.v) excludes two of its four sources: the tokenizer / parser fuel never runs out, and the round bound of
+   the two task loops is never the reason (a task never adds to the list being drained, so the second round is empty).
+   NOT proved: that POutOfFuel arises only from the include-depth fuel, i.e.
+     forall files, (forall p, fs p <> None -> In p files) -> length files < fuel -> pipeline_gen dbg fs fuel path text <> POutOfFuel.
+   Missing: the map's search fuel suffices in every reachable state (C15 proves it under the map invariant Rep, C13
+   proves Rep for every reachable state; the two are not composed into a no-OutOfFuel statement), and the pigeonhole
+   argument on path_stack (an include cycle is a diagnostic since 1569db8, so path_stack has no duplicates and its
+   length is bounded by the number of files). *)
 From Coq Require Import ZArith NArith List Bool String.
-From Trion Require Import Text.Types Asm.CtxModel Asm.ReportSpec Asm.Ctx06Proofs.
+From Trion Require Import Text.Types Asm.CtxModel Asm.ReportSpec Asm.Ctx06Proofs Asm.CtxNoPanic Asm.CtxFuel.
 From Trion Require Arm.AsmStmtModel Expr.EvalModel.
 Import ListNotations.
 Open Scope N_scope.
+
+(* no panic site is reached: the whole pipeline (assemble, close the last region, finalize), any project `fs`, any
+   root path and source text, any include-depth fuel, release (dbg = false) and overflow-checking (dbg = true) builds *)
+Theorem C06_never_panics : forall dbg fs fuel path text p, pipeline_gen dbg fs fuel path text <> PPanic p.
+Proof. exact never_panics. Qed.
+
+(* the model's OutOfFuel outcome never comes from the tokenizer / parser fuel, and never from the round bound of the task
+   loops of Context::assemble and finalize: if a loop runs out of fuel, a task of its first round did *)
+Theorem C06_fuel_not_rounds : forall dbg,
+  (forall data, exists items, parse_source data = Parsed items None) /\
+  (forall k tasks st r, tinv st -> infile st -> local_tasks st = Some [] ->
+     local_loop dbg (S k) tasks st r = OutOfFuel -> local_round dbg tasks st r = OutOfFuel) /\
+  (forall k tasks st, tinv st -> path_stack st = [] -> Forall plain tasks -> global_tasks st = [] ->
+     final_loop dbg (S k) tasks st = OutOfFuel -> final_round dbg tasks st = OutOfFuel).
+Proof. exact fuel_not_rounds. Qed.
 
 (* success <=> no diagnostic recorded; failure => at least one diagnostic (a close error is its own report).
    Every diagnostic carries a file name, line and column by construction (record CtxModel.diag). *)
